@@ -76,8 +76,9 @@ def run(ctx):
                         x = unwrap_cast(d[1])
                         if x[0] == 'call' and x[1] == UNWRAP and ev[3] == 0:
                             unwrap_ok = True
-                    if d[0] == 'call' and d[1] in ('std::cmp::PartialEq::ne', 'std::cmp::PartialEq::eq') and len(d[3]) == 2:
-                        equal_edge = (branch_truth(ev) is False) if d[1].endswith('ne') else (branch_truth(ev) is True)
+                    d, tr_ = cmp_branch(st, ev)
+                    if d[0] == 'call' and re.search(r'(^std::cmp::PartialEq|as std::cmp::PartialEq(<.*>)?>)::(ne|eq)$', d[1]) and len(d[3]) == 2:
+                        equal_edge = (tr_ is False) if d[1].endswith('ne') else (tr_ is True)
                         a, b = resolve(st, d[3][0]), resolve(st, d[3][1])
                         v = match_operands(st, path, cs, a, b) or match_operands(st, path, cs, b, a)
                         if v is True and equal_edge:
@@ -159,9 +160,9 @@ def run(ctx):
         verdict = 'no slice comparison on the path'
         good = False
         for ev in path_branches(st):
-            d = strip(ev[2])
+            d, tr_ = cmp_branch(st, ev)
             if d[0] == 'call' and re.search(r'PartialEq.*::(ne|eq)$', d[1]) and len(d[3]) == 2:
-                equal_edge = (branch_truth(ev) is False) if d[1].endswith('ne') else (branch_truth(ev) is True)
+                equal_edge = (tr_ is False) if d[1].endswith('ne') else (tr_ is True)
                 a, b = resolve(st, d[3][0]), resolve(st, d[3][1])
                 for x, y in ((a, b), (b, a)):
                     v = match_checksum(st, x, y)
@@ -187,7 +188,7 @@ def run(ctx):
         callers = set()
         for b in P.bodies.values():
             for c in b.calls:
-                if c.callee == callee or c.orig == callee:
+                if (c.callee == callee or c.orig == callee) and P.key_of(b) in P.known_functions:
                     callers.add(P.key_of(b))
         ctx.check(callers and callers <= okset, 'R01.6', 'callers:%s' % callee,
                   '%s is called only from %s' % (callee.rsplit('::', 1)[-1], sorted(okset)), '',
